@@ -1166,3 +1166,190 @@ def _ref_arith():
 
 
 _ref_arith()
+
+
+
+# ---------------------------------------------------------------------------------------------------- hash_map::Entry matched by hand
+from .interp import _entry, _mkey  # noqa: E402
+
+
+@add('hashbrown::hash_map::OccupiedEntry::get_mut', 'hashbrown::hash_map::OccupiedEntry::into_mut', 'hashbrown::hash_map::OccupiedEntry::get')
+def m_occ_get(I, a, t, c):
+    m, k, _ = _entry(I, a[0])
+    return RefV(m.d[k][1])
+
+
+@add('hashbrown::hash_map::OccupiedEntry::insert')
+def m_occ_insert(I, a, t, c):
+    m, k, kv = _entry(I, a[0])
+    old = m.d[k][1].v
+    m.d[k][1].v = a[1]
+    return old
+
+
+@add('hashbrown::hash_map::OccupiedEntry::remove')
+def m_occ_remove(I, a, t, c):
+    m, k, kv = _entry(I, a[0])
+    return m.d.pop(k)[1].v
+
+
+@add('hashbrown::hash_map::OccupiedEntry::key', 'hashbrown::hash_map::VacantEntry::key', 'hashbrown::hash_map::Entry::key')
+def m_entry_key(I, a, t, c):
+    m, k, kv = _entry(I, a[0])
+    return RefV(Cell(kv, 'entry-key'))
+
+
+@add('hashbrown::hash_map::VacantEntry::insert')
+def m_vac_insert(I, a, t, c):
+    m, k, kv = _entry(I, a[0])
+    m.d[k] = (kv, Cell(a[1], 'mapval'))
+    return RefV(m.d[k][1])
+
+
+@add('hashbrown::hash_map::Entry::or_default')
+def m_entry_or_default(I, a, t, c):
+    raise Unsupported('Entry::or_default (value type unknown to the model)')
+
+
+@add('hashbrown::hash_map::Entry::or_insert_with_key')
+def m_entry_or_insert_with_key(I, a, t, c):
+    m, k, kv = _entry(I, a[0])
+    if k not in m.d:
+        m.d[k] = (kv, Cell(I.call_closure(a[1], [RefV(Cell(kv, 'entry-key'))]), 'mapval'))
+    return RefV(m.d[k][1])
+
+
+# ---------------------------------------------------------------------------------------------------- Peekable::next_if / next_if_eq / peek_mut
+def _peek_state(I, r):
+    itv = I.load(r)
+    items = _iter_items(I, itv)
+    return items
+
+
+@add('std::iter::Peekable::next_if_eq', 'std::iter::Peekable::<I>::next_if_eq')
+def m_next_if_eq(I, a, t, c):
+    from .interp import _deep_eq
+    items = _peek_state(I, a[0])
+    if items and _deep_eq(I, items[0], a[1]):
+        I.store(a[0], Agg('iter', 0, [items[1:], 0]))
+        return some(items[0])
+    return NONE
+
+
+@add('std::iter::Peekable::next_if', 'std::iter::Peekable::<I>::next_if')
+def m_next_if(I, a, t, c):
+    items = _peek_state(I, a[0])
+    if items and _pred(I, a[1], items[0]):
+        I.store(a[0], Agg('iter', 0, [items[1:], 0]))
+        return some(items[0])
+    return NONE
+
+
+# ---------------------------------------------------------------------------------------------------- [[T]]::concat, [T]::repeat
+@add('std::slice::<impl [T]>::concat', 'alloc::slice::<impl [T]>::concat', 'std::slice::<impl [V]>::concat')
+def m_slice_concat(I, a, t, c):
+    out = []
+    strs = True
+    for part in _iter_items(I, a[0]):
+        p = deref_all(I, part) if isinstance(part, RefV) and part.win is None else part
+        if isinstance(p, StrV):
+            out.extend(p.chars)
+        else:
+            strs = False
+            out.extend(deref_all(I, x) if isinstance(x, RefV) else x for x in _iter_items(I, part))
+    return StrV(out) if strs and out else Agg('array', 0, out)
+
+
+@add('std::slice::<impl [T]>::repeat', 'alloc::slice::<impl [T]>::repeat')
+def m_slice_repeat(I, a, t, c):
+    vals = [deref_all(I, x) if isinstance(x, RefV) else x for x in _iter_items(I, a[0])]
+    return Agg('array', 0, vals * I.conc(a[1]))
+
+
+# ---------------------------------------------------------------------------------------------------- ndarray::axis_chunks_iter, seq_io owned_seq
+@add('ndarray::impl_methods::<impl ndarray::ArrayBase<S, D>>::axis_chunks_iter')
+def m_nd_axis_chunks_iter(I, a, t, c):
+    from .interp import _axis, _view1
+    n, vals = _nd_or_vals(I, a[0])
+    ax = _axis(I, a[1])
+    size = I.conc(a[2])
+    if size == 0:
+        raise Panic('panic', 'axis_chunks_iter: chunk size 0', repr(t.span))
+    if n is None:
+        return Agg('iter', 0, [[_view1(vals[i:i + size]) for i in range(0, len(vals), size)], 0])
+    if ax == 0:
+        return Agg('iter', 0, [[Nd2(n.rows[i:i + size], n.ncols) for i in range(0, len(n.rows), size)], 0])
+    return Agg('iter', 0, [[Nd2([r[i:i + size] for r in n.rows], len(n.rows[0][i:i + size]) if n.rows else 0) for i in range(0, n.ncols, size)], 0])
+
+
+@add('seq_io::fasta::RefRecord::owned_seq', 'seq_io::fasta::Record::owned_seq', '<seq_io::fasta::RefRecord as seq_io::fasta::Record>::owned_seq')
+def m_seqio_owned_seq(I, a, t, c):
+    r = deref_all(I, a[0])
+    return Agg('array', 0, [BV(8, ord(ch)) for ch in r.fields[1] if ch not in '\r\n'])
+
+
+# ---------------------------------------------------------------------------------------------------- further rayon adaptors (sequential, index-ordered schedule)
+from . import interp as _M  # noqa: E402
+
+
+def _par(name):
+    return add('rayon::iter::ParallelIterator::' + name, 'rayon::iter::IndexedParallelIterator::' + name)
+
+
+@_par('reduce')
+def m_par_reduce(I, a, t, c):
+    acc = I.call_closure(a[1], [])
+    for x in _iter_items(I, a[0]):
+        acc = I.call_closure(a[2], [acc, x])
+    return acc
+
+
+@_par('reduce_with')
+def m_par_reduce_with(I, a, t, c):
+    items = _iter_items(I, a[0])
+    if not items:
+        return NONE
+    acc = items[0]
+    for x in items[1:]:
+        acc = I.call_closure(a[1], [acc, x])
+    return some(acc)
+
+
+@_par('fold')
+def m_par_fold(I, a, t, c):
+    acc = I.call_closure(a[1], [])
+    for x in _iter_items(I, a[0]):
+        acc = I.call_closure(a[2], [acc, x])
+    return Agg('iter', 0, [[acc], 0])           # one fold result per "split": a single split in the sequential schedule
+
+
+@_par('sum')
+def m_par_sum(I, a, t, c):
+    return MODELS['std::iter::Iterator::sum'](I, a, t, c)
+
+
+@_par('count')
+def m_par_count(I, a, t, c):
+    return BV(64, len(_iter_items(I, a[0])))
+
+
+for _nm in ('filter', 'filter_map', 'flat_map', 'any', 'all', 'copied', 'cloned', 'min_by_key', 'max_by_key', 'chain', 'take', 'skip', 'rev', 'inspect', 'flatten', 'position_any', 'find_any', 'find_first'):
+    _std = {'position_any': 'position', 'find_any': 'find', 'find_first': 'find'}.get(_nm, _nm)
+    if 'std::iter::Iterator::' + _std in MODELS:
+        for _pre in ('rayon::iter::ParallelIterator::', 'rayon::iter::IndexedParallelIterator::'):
+            MODELS.setdefault(_pre + _nm, MODELS['std::iter::Iterator::' + _std])
+
+
+@add('rayon::iter::IntoParallelIterator::into_par_iter', '<I as rayon::iter::IntoParallelIterator>::into_par_iter')
+def m_into_par_iter(I, a, t, c):
+    return _M.m_into_iter(I, a, t, c)
+
+
+@add('rayon::slice::ParallelSlice::par_chunks', 'rayon::slice::ParallelSliceMut::par_chunks_mut')
+def m_par_chunks(I, a, t, c):
+    return _M._chunks(I, a, False)
+
+
+@add('rayon::slice::ParallelSlice::par_chunks_exact', 'rayon::slice::ParallelSliceMut::par_chunks_exact_mut')
+def m_par_chunks_exact(I, a, t, c):
+    return _M._chunks(I, a, True)
